@@ -191,7 +191,7 @@ package task
 
 // Filtered returns only elements its filter accepted (acc records the filter's verdicts)
 //@ func (m Tasks) Filtered(filter Filter) (tasks Tasks)
-//@   property C04
+//@   property C04 C02
 //@   opt pure-params=filter
 //@   ghostvar acc map[*Task]bool = empty
 //@   on aftercall <dynamic> : acc[arg0] = acc[arg0] || result
@@ -200,6 +200,11 @@ package task
 //@   loop 1 invariant #i >= -1 && #i < len(m) && fresh(tasks)
 //@   loop 1 invariant forall k int :: 0 <= k && k < len(tasks) ==> acc[tasks[k]]
 //@   loop 1 invariant forall k int :: 0 <= k && k < len(tasks) ==> exists j int :: 0 <= j && j <= #i && tasks[k] == m[j]
+// completeness (C02: every task the predicate accepts is commanded): nothing accepted is left out
+//@   ghostvar idx map[*Task]int = empty
+//@   on call builtin.append : idx[arg1[0]] = len(arg0)
+//@   [C02] ensures forall x *Task :: acc[x] ==> 0 <= idx[x] && idx[x] < len(tasks) && tasks[idx[x]] == x
+//@   [C02] loop 1 invariant forall x *Task :: acc[x] ==> 0 <= idx[x] && idx[x] < len(tasks) && tasks[idx[x]] == x
 
 // ---------------------------------------------------------------------------------------------------------
 // C03: a terminal Mesos status (lost, killed, failed, error) of an owned task is turned into task state ERROR.
